@@ -31,7 +31,7 @@ LEVEL = "model_checking"
 # short TLC runs: few GC threads and the C1 compiler only (halves the CPU time of a JVM start)
 JLIGHT = {"JAVA_TOOL_OPTIONS": "-XX:ParallelGCThreads=2 -XX:TieredStopAtLevel=1"}
 JHEAVY = {"JAVA_TOOL_OPTIONS": "-XX:ParallelGCThreads=4"}
-VARIANTS = ("nokeepalive", "nofree", "nolock", "nonull", "nodetach")
+VARIANTS = ("nokeepalive", "nofree", "nolock", "nonull", "nodetach", "extraref")
 INVS = ("NoErr", "ZombiesOK", "CanaryPtrOK", "BodyOK", "AccountOK")
 ACTIONS = ("Spawn", "Ge1", "Ge2", "Ge3", "Ge5", "Ge6", "Fz0", "Fz1", "Fz2", "Fz3", "Cd1", "Cd2", "Fz4", "Rg1",
            "Rg2", "Body", "BodyRel", "BodyAcq", "BodyW", "Gr1", "Sh0", "Sh1", "Sh2", "Sh3", "M0", "M1",
@@ -157,8 +157,26 @@ def projection(st):
             "seen": {str(f + 1): list(st["seen"][f]) for f in range(len(st["seen"]))}}
 
 
-def render(g, beh, rng, bid):
-    """macro steps -> harness steps + the model's predictions after each step"""
+def fork_sub(rng):
+    """What the forked child does: new foreign threads call back (twice, so that thread-locals must
+    persist), exit, and a later thread registers (it sweeps the zombie list)."""
+    steps, k = [], rng.randrange(1, 4)
+    for f in range(1, k + 1):
+        steps.append(["Spawn", f])
+        for _ in range(rng.randrange(1, 3)):
+            steps += [["CbEnter", f, rng.choice(TF.KINDS)], ["CbExit", f]]
+    for f in rng.sample(range(1, k + 1), rng.randrange(1, k + 1)):
+        steps.append(["Exit", f])
+    steps += [["Spawn", k + 1], ["CbEnter", k + 1, rng.choice(TF.KINDS)], ["CbExit", k + 1], ["Py", "gc"],
+              ["CbEnter", k + 1, rng.choice(TF.KINDS)], ["CbExit", k + 1], ["Exit", k + 1]]
+    return steps
+
+
+def render(g, beh, rng, bid, pfork=0.0):
+    """macro steps -> harness steps + the model's predictions after each step.  With probability
+    pfork a "Fork" step is inserted after a step that leaves thread states linked (zombies pending
+    or living foreign threads): the real counterpart of the model's MClear (the interpreter
+    destroys thread states under cffi's feet), followed by new foreign threads in the child."""
     steps, preds = [], []
     for label, f, dst in beh:
         if label == "CbEnter":
@@ -168,6 +186,9 @@ def render(g, beh, rng, bid):
         else:
             steps.append([label, f])
         preds.append(projection(g.states[dst]))
+        if preds[-1]["nlinked"] > 0 and rng.random() < pfork:
+            steps.append(["Fork", 0, fork_sub(rng)])
+            preds.append(None)
     return {"id": bid, "steps": steps, "preds": preds}
 
 
@@ -205,6 +226,8 @@ def random_history(rng, bid):
             f = rng.choice(alive)
             alive.remove(f)
             steps.append(["Exit", f])
+        elif x < 0.96 and not running:
+            steps.append(["Fork", 0, fork_sub(rng)])
         else:
             steps.append(["Py", rng.choice(["gc", "thread", "alloc", "yield"])])
     return {"id": bid, "steps": steps, "preds": None}
@@ -222,6 +245,8 @@ def to_trace(events):
         return names[p]
     out = []
     for e in events:
+        if e["ev"] == "Fork":
+            continue
         x = {"ev": e["ev"], "f": e.get("f", 0), "tok": 0, "seen": e.get("seen", []), "v": e.get("v", 0),
              "live": [-1], "ok": bool(e.get("ok", True))}
         if e.get("live") is not None:
@@ -267,10 +292,11 @@ def compare_with_model(beh, events):
         if e["ev"] == "Quiet":
             obs.append((cur, e["live"], dict(last_tok)))
             cur = None
-    n = min(len(obs), len(beh["preds"]))
     gone = set()
-    for i in range(n):
-        e, live, toks = obs[i]
+    idx = [i for i, p in enumerate(beh["preds"]) if p is not None]     # "Fork" steps predict nothing
+    for j in range(min(len(obs), len(idx))):
+        i = idx[j]
+        e, live, toks = obs[j]
         base &= set(live)
         pred = beh["preds"][i]
         mine = [p for p in live if p not in base]
@@ -302,7 +328,7 @@ def execute(ctx, libdir, behs, per_child, pool, tag, leave_running):
                "leave_running": bool(leave_running and ci % 2 == 0)}
         futs.append(pool.submit(TF.run_child, libdir, scn, ctx.tmp, "%s_%d" % (tag, ci),
                                 600 if ctx.quick else 1800))
-    out = []
+    out, forks = [], []
     for ch, fu in zip(chunks, futs):
         rc, res, progress, err = fu.result()
         if rc == "timeout":
@@ -312,6 +338,9 @@ def execute(ctx, libdir, behs, per_child, pool, tag, leave_running):
             raise core.MachineryError("sub-process %s exceeded its time budget; last progress: %r" % (
                 tag, [p for p in progress if p][-1:]))
         got = {r["id"]: r["events"] for r in (res or {}).get("results", [])}
+        for fk in (res or {}).get("forks", []):
+            owner = next((b for b in ch if fk["id"].startswith(b["id"] + "/fork")), ch[0])
+            forks.append((owner, fk))
         crashed = rc != 0 or res is None or not res.get("complete")
         for b in ch:
             out.append((b, got.get(b["id"]), None))
@@ -319,6 +348,7 @@ def execute(ctx, libdir, behs, per_child, pool, tag, leave_running):
             last = [p for p in progress if p][-1:] or ["(nothing executed)"]
             culprit = next((b for b in ch if b["id"] not in got), ch[-1])
             out.append((culprit, None, {"status": rc, "last_progress": last[0], "stderr": err[-1500:]}))
+    ctx.forks = getattr(ctx, "forks", []) + forks
     return out
 
 
@@ -385,7 +415,8 @@ def run(ctx):
             cover.append({"graph": "atomic %d threads x %d calls" % (shape // 10, shape % 10),
                           "stable_states": len(sub), "operations": total, "operations_replayed": done})
             exhaustive = exhaustive and done == total
-        rendered = [render(g, b, rng, "g%d_%d_%d" % (len(foreign), mc, i)) for i, b in enumerate(behs)]
+        rendered = [render(g, b, rng, "g%d_%d_%d" % (len(foreign), mc, i), pfork=0.05 if quick else 0.03)
+                    for i, b in enumerate(behs)]
         lres += execute(ctx, libdir, rendered, 50, cpool, "ls%d%d" % (len(foreign), mc), True)
     ctx.cov["graph_cover"] = cover
     # ---- verdicts
@@ -406,6 +437,23 @@ def run(ctx):
             metas.append({"kind": kind, "behaviour": beh, "events": events})
             if beh.get("preds") is not None:
                 divergences += compare_with_model(beh, events)
+    # ---- forked children: exit status, and their own histories
+    nfork = 0
+    for owner, fk in getattr(ctx, "forks", []):
+        nfork += 1
+        behrec = {"id": owner["id"], "steps": owner["steps"]}
+        if fk["signal"] or fk["code"] or fk["events"] is None:
+            ctx.violation("crash:fork:%s" % ("signal%d" % fk["signal"] if fk["signal"] else "exit%d" % fk["code"]),
+                          CLAUSE["crash"] + " (the forked child, in which new foreign threads called back after "
+                          "the interpreter had destroyed the thread states inherited from the parent)",
+                          {"kind": "fork", "behaviour": behrec, "fork": {k: fk[k] for k in ("id", "steps", "signal", "code")}})
+            continue
+        ctx.case(("fork", json.dumps(owner["steps"]), fk["id"]))
+        traces.append(to_trace(fk["events"]))
+        metas.append({"kind": "fork", "behaviour": behrec, "events": fk["events"]})
+    ctx.cov["forks_executed"] = nfork
+    if nfork == 0:
+        raise core.MachineryError("no fork scenario was executed")
     bad = validate(ctx, traces)
     for k, v, pos in bad:
         x = traces[k][pos - 1]
